@@ -54,16 +54,16 @@ fn succ_body(max_days: u64) {
     assert!(m >= 1 && m <= 12 && dd >= 1 && dd <= ref_dim(y, m), "valid calendar date");
     let n = mp4h::days_to_ymd(d + 1);
     assert!(n == ref_succ(y, m, dd), "next day is the calendar successor");
-    kani::cover!(m == 2 && dd == 29, "29 February reached");
-    kani::cover!(m == 12 && dd == 31, "year roll-over reached");
-    kani::cover!(y == 2000 && m == 2 && dd == 28, "28 Feb 2000 (400-year rule)");
+    crate::vcover!(m == 2 && dd == 29, "29 February reached");
+    crate::vcover!(m == 12 && dd == 31, "year roll-over reached");
+    crate::vcover!(y == 2000 && m == 2 && dd == 28, "28 Feb 2000 (400-year rule)");
 }
 
 //@ prop=C18 tier=quick cost=5 fns="muxer::mp4::days_to_ymd,is_leap_year" bound="day 0" unwind=14
 h!(c18_epoch, 14, {
     assert!(mp4h::days_to_ymd(0) == (1970, 1, 1));
     assert!(mp4h::days_to_ymd(59) == (1970, 3, 1));
-    kani::cover!(true, "reached");
+    crate::vcover!(true, "reached");
 });
 
 //@ prop=C18 tier=quick cost=150 fns="muxer::mp4::days_to_ymd,is_leap_year" bound="all days d < 7305 (1970-01-01 .. 1989-12-31), successor relation" unwind=23 covers_optional="2000"
@@ -83,8 +83,8 @@ h!(c18_valid_to_2120, 153, {
     let (y, m, dd) = mp4h::days_to_ymd(d);
     assert!(m >= 1 && m <= 12 && dd >= 1 && dd <= ref_dim(y, m), "valid calendar date");
     assert!((y as u64 - 1970) * 365 <= d && d < (y as u64 - 1969) * 366, "year consistent with the day count");
-    kani::cover!(y == 2100 && m == 2 && dd == 28, "28 Feb 2100");
-    kani::cover!(y == 2100 && m == 3 && dd == 1, "1 Mar 2100");
+    crate::vcover!(y == 2100 && m == 2 && dd == 28, "28 Feb 2100");
+    crate::vcover!(y == 2100 && m == 3 && dd == 1, "1 Mar 2100");
 });
 
 // (b) time of day and (c) text rendering go through core::fmt (format!), whose
@@ -104,7 +104,7 @@ fn lang_body(f: fn(&str) -> [u8; 2]) {
     assert!(((v >> 10) & 0x1f) as u8 + 0x60 == l[0], "first letter recoverable");
     assert!(((v >> 5) & 0x1f) as u8 + 0x60 == l[1], "second letter recoverable");
     assert!((v & 0x1f) as u8 + 0x60 == l[2], "third letter recoverable");
-    kani::cover!(l[0] == b'z' && l[2] == b'a', "zxa-like code");
+    crate::vcover!(l[0] == b'z' && l[2] == b'a', "zxa-like code");
 }
 //@ prop=C18 tier=quick cost=60 fns="muxer::mp4::encode_language_code" bound="all 26^3 lower-case codes" unwind=8
 h!(c18_lang_progressive, 8, {
@@ -124,7 +124,7 @@ h!(c18_mdhd_language, 8, {
     assert!(((v >> 10) & 0x1f) as u8 + 0x60 == l[0] && ((v >> 5) & 0x1f) as u8 + 0x60 == l[1] && (v & 0x1f) as u8 + 0x60 == l[2]);
     let n = snap::<32>(&mp4h::build_mdhd_box_with_timescale_and_duration(90000, 0, None));
     assert!(be16(&n, 28) == 0x55c4, "'und' when no language is given");
-    kani::cover!(true, "reached");
+    crate::vcover!(true, "reached");
 });
 
 // ---------------------------------------------------------------------------
@@ -220,8 +220,8 @@ macro_rules! udta_title_h {
             let o = check_udta_shell(&v, 61 + 24 + $n);
             let e = check_item::<$n>(&v, o, b"\xa9nam", &t);
             assert!(e == v.len(), "exactly one item");
-            kani::cover!($n > 0 && t[0] >= 0x80, "multi-byte UTF-8 title");
-            kani::cover!($n == 0 || t[0] < 0x80, "ASCII or empty title");
+            crate::vcover!($n > 0 && t[0] >= 0x80, "multi-byte UTF-8 title");
+            crate::vcover!($n == 0 || t[0] < 0x80, "ASCII or empty title");
             core::mem::forget(md);
         });
     };
@@ -240,7 +240,7 @@ h!(c18_udta_absent, 12, {
     let md = Metadata { title: None, creation_time: None, language: kani::any::<bool>().then(|| String::from("eng")) };
     let out = mp4h::build_udta_box(&md);
     assert!(out.is_empty(), "no user-data box without title and creation time");
-    kani::cover!(md.language.is_some(), "language only");
+    crate::vcover!(md.language.is_some(), "language only");
     core::mem::forget(md);
 });
 
@@ -265,7 +265,7 @@ fn udta_day_body(with_title: bool) {
         let e = check_item::<0>(&v, o, b"\xa9day", &empty);
         assert!(e == v.len());
     }
-    kani::cover!(true, "reached");
+    crate::vcover!(true, "reached");
     core::mem::forget(md);
 }
 //@ prop=C18 tier=quick cost=60 fns="muxer::mp4::build_udta_box,build_ilst_string_item,format_unix_timestamp" bound="2 symbolic ASCII title bytes + any creation time < 800 days; date TEXT stubbed out (fmt::format -> empty): item structure/order only" unwind=12 stubs="fmt::format"
